@@ -185,6 +185,17 @@ pub fn oracle_c01(ctors: &[Ctor]) -> Verdict {
                 with_type!(tn, T => collect_as::<T, _>(open(with)), else Err("bad type".into())),
             ));
         }
+        // the bulk calls, and a source that hands out three bytes per read call
+        for with in [true, false] {
+            routes.push((format!("cursor/generic/bulk/shx={}", with), open(with).read().map(|v| v.iter().map(|s| s.to_sv()).collect()).map_err(|e| show_err(&e))));
+            routes.push((
+                format!("cursor/typed/bulk/shx={}", with),
+                with_type!(tn, T => open(with).read_as::<T>().map(|v| v.iter().map(|s| s.to_sv()).collect()).map_err(|e| show_err(&e)), else Err("bad type".into())),
+            ));
+            let chunked = |d: &Vec<u8>| crate::round4::ChunkSrc { data: d.clone(), pos: 0, chunk: 3 };
+            let r = if with { ShapeReader::with_shx(chunked(&shp), chunked(&shx)) } else { ShapeReader::new(chunked(&shp)) };
+            routes.push((format!("chunk3/generic/seq/shx={}", with), r.map_err(|e| show_err(&e)).and_then(|r| collect_as::<Shape, _>(r))));
+        }
         routes.push(("cursor/generic/nth".into(), nth_as::<Shape, _>(open(true), n)));
         routes.push(("cursor/typed/nth".into(), with_type!(tn, T => nth_as::<T, _>(open(true), n), else Err("bad type".into()))));
         // on disk, by path
